@@ -67,14 +67,11 @@ pub fn expand_partial<'reg: 'rc, 'rc>(
 
     let is_partial_block = tname == PARTIAL_BLOCK;
 
-    // add partial block depth there are consecutive partial
-    // blocks in the stack.
+    // what `@partial-block` denotes is a property of this inclusion: it is
+    // put back afterwards
+    let partial_block_binding_before = rc.get_partial_block_binding();
     if is_partial_block {
-        rc.inc_partial_block_depth();
-    } else {
-        // depth cannot be lower than 0, which is guaranted in the
-        // `dec_partial_block_depth` method
-        rc.dec_partial_block_depth();
+        rc.enter_partial_block();
     }
 
     // hash
@@ -120,6 +117,8 @@ pub fn expand_partial<'reg: 'rc, 'rc>(
     if d.template().is_some() {
         rc.pop_partial_block();
     }
+
+    rc.set_partial_block_binding(partial_block_binding_before);
 
     let _ = rc.replace_blocks(current_blocks);
     rc.set_trailing_newline(trailing_newline);
